@@ -6,7 +6,8 @@ in one of ten call modes and on objects from the constructor or from process_ite
 procfs (files with arbitrary bytes, exe/cwd as real symlinks where the target can be stored in one,
 `os.readlink` answered from a table otherwise; OS errors on single files/links injected at
 `psutil._common.open` / `os.readlink`; `os.stat`/`os.access` of paths *outside* procfs answered from the
-case's table, or by a real temporary tree) compared call by call with the Lean model and with the
+case's table — exists / ENOENT / EACCES / fails with ANY other errno —, or by a real temporary tree and a real
+directory whose names really fail with ENOTDIR / ELOOP / ENAMETOOLONG) compared call by call with the Lean model and with the
 byte-level specification the driver prints alongside.
 """
 import ast
@@ -30,14 +31,14 @@ DRIVER_MODULES = ["PsutilModel.Model.C12Gen", "PsutilModel.Spec.C12"]
 NEEDS_EXT = True
 TRUSTED = [
     "C12 strings: psutil's str values are UTF-8+surrogateescape decodings (PYTHONUTF8=1 pinned by ./check), a bijection with byte strings; the ASCII-literal operations (split/endswith/find/in/rfind('/')) are modelled on bytes; the two places where the code as found is not byte-transparent (universal-newline translation in open_text; len()/startswith() of name() on code points) are modelled explicitly (nlTranslate, chars) and switched by translator facts",
-    "C12 world: one PID; `_parse_stat_file`'s parsing of /proc/<pid>/stat (comm between the first '(' and the last ')') is C06's subject and enters here as `comm`; `_is_zombie`'s OWN parser of the same file (byte 2 after the last ')' compared with 'Z') is pinned by the facts isZombieLastParen / isZombieStateWindow / isZombieLetter (cfg_zombie_parser) and exercised with names containing ')' (PAREN_COMMS); the world says separately whether /proc/<pid>, /proc/<pid>/stat exist and whether stat is readable; os.stat/os.access/os.path.isfile of paths outside procfs are a parameter (`fs`) of model and theorems",
+    "C12 world: one PID; `_parse_stat_file`'s parsing of /proc/<pid>/stat (comm between the first '(' and the last ')') is C06's subject and enters here as `comm`; `_is_zombie`'s OWN parser of the same file (byte 2 after the last ')' compared with 'Z') is pinned by the facts isZombieLastParen / isZombieStateWindow / isZombieLetter (cfg_zombie_parser) and exercised with names containing ')' (PAREN_COMMS); the world says separately whether /proc/<pid>, /proc/<pid>/stat exist and whether stat is readable; os.stat/os.access/os.path.isfile of paths outside procfs are a parameter (`fs`) of model and theorems, with six answers: absent (ENOENT), denied (EACCES/EPERM), dir, file, executable file, and `unstatable errno class` (any other errno, raised as the OSError subclass CPython maps it to: the harness asks the running interpreter for the class, the model knows PEP 3151's hierarchy)",
     "C12 identity: the real uid of /proc/<pid>/status and tty_nr of /proc/<pid>/stat enter as `uid`/`tty`; pwd.getpwuid and glob('/dev/tty*')+os.stat().st_rdev are answered from the case's tables (`users`, `ttys`)",
     "C12 modes: the harness predicts what a oneshot() block has cached from the warm-up calls it made itself (which front-end methods read stat / status is listed in STAT_READERS / STATUS_READERS); ppid()/is_running() are only run while /proc/<pid> exists (their `_gone` memory is C01/C02's subject); as_dict(attrs=[call, extras]) uses extras that cannot raise NoSuchProcess while /proc/<pid> exists",
 ]
 MANIFEST = {
-    "level_text": "Machine-checked Lean 4 proofs over a model of _pslinux.Process.cmdline/environ/exe/cwd (+ readlink, _readlink, wrap_exceptions), _common.parse_environ_block and the front ends psutil.Process.exe()/name()/username()/terminal(): for EVERY byte string / world, the model equals a byte-level specification written from the property statement (C12_cmdline_spec, C12_environ_spec, C12_file_errors for OS errors on the files themselves, C12_link_cleanup, C12_link_withheld, C12_exe_fallback, C12_exe_refines over all call histories incl. memoisation, one closed-form theorem per documented branch of exe(): C12_exe_native / _native_error / _denied / _withheld / _eacces_link, C12_name_rule, C12_name_when_cmdline_raises and C12_name_zombie_or_denied (a zombie or a process with an unreadable cmdline keeps the kernel's name; NoSuchProcess propagates), C12_cwd_exe_zombie, C12_zombie_identity (a zombie still has an owner and a terminal), C12_call_refines), plus kernel-layout round-trips for every argv without NUL (C12_cmdline_roundtrip, under the stated hypothesis about a single space-containing argument, with the counterexample showing the hypothesis is needed) and every environment (C12_environ_roundtrip), C12_oneshot_same_answers (inside oneshot() every call answers as outside for the world 'block-cached stat/status as first read, everything else as now'), and proved counterexamples for the two defects re-found (name() testing code points instead of bytes; open_text translating CR). Characterisations of what is returned for files a rewritten title leaves behind (C12_cmdline_setproctitle: from the memory layout of the nginx/sshd/postgres way of writing a title through the kernel's get_mm_cmdline rule to the returned list; C12_cmdline_padded_title: title + k+2 NULs = the title unsplit + k+1 empty strings; C12_cmdline_title_leftover; C12_cmdline_unterminated: a file cut by a one-page kernel is read as a space-separated title with the NULs inside the strings) and for environment blocks (C12_environ_unterminated_tail: a block cut at 4096 bytes loses exactly the cut entry; C12_environ_not_assignment_ignored: 'B', '=x'; C12_environ_any_value: newlines etc.; C12_environ_duplicates). Tied to the code by translator facts (all separator literals, the 'exactly one trailing separator is removed' shape of cmdline() with the proved counterexample C12_cmdline_strip_one_needed for rstrip, ' (deleted)', 10, 15, bytes-vs-str test in name(), newline mode of open_text, and the except clauses of name() around cmdline() and of exe() around _proc.exe() / guess_it() in source order with what their bodies do, read with Python's first-matching-clause and subclass rules: cfg_except_clauses, C12_except_clause_order_matters) feeding the proof obligation cfg_good, and by a differential run of the real methods over a fake procfs in which every call is made in one of ten call modes (plain, oneshot, nested, warm block cache filled in an earlier world, after a block, as_dict with one/many attrs, as_dict inside oneshot, twice, re-fetched from process_iter) on objects from the constructor, process_iter() and process_iter(attrs=...). Round 3 (audit): the world separates '/proc/<pid> exists' / 'stat exists' / 'stat readable' (C12_vanishing_process: directory still listed, stat gone = NoSuchProcess, psutil #2418, pinned by cfg_gone_test; C12_stat_unreadable; C12_link_withheld_unknown_liveness is a characterisation); branch-free invariants about the world only, not going through the spec's exception arms (C12_exe_result_invariant: a returned string is the clean link target, a guessable argv[0], or '' for a withheld link of a process not known to be a zombie; C12_exe_remembers_only_what_it_returned for every configuration; C12_exe_denied_never_remembered; C12_zombie_never_empty_string); C12_exe_withheld_link (the withheld branch stated on the world); the silent region of the specification delimited exactly (C12_silent_region, C12_call_refines_outside_silent); further obligations cfg_block_cached_sources (translator's list of @memoize_when_activated methods and of what oneshot_enter / Process.oneshot activate: none of C12's methods is block-cached), cfg_zombie_parser, cfg_text_decoding (open_text decodes with the file-system encoding and error handler). HONEST LABELS: the theorems comparing model and spec on exception arms (C12_file_errors, C12_exe_denied/_withheld/_eacces_link, C12_name_when_cmdline_raises, C12_link_withheld) and on NUL-padded titles / cut files are characterisations of the code (the spec's arms there are a declarative transcription of what the front end documents, see the header of Spec/C12.lean); C12_exe_cached, C12_zombie_identity and C12_oneshot_same_answers are facts about the model whose weight is the correspondence.",
+    "level_text": "Machine-checked Lean 4 proofs over a model of _pslinux.Process.cmdline/environ/exe/cwd (+ readlink, _readlink, wrap_exceptions), _common.parse_environ_block and the front ends psutil.Process.exe()/name()/username()/terminal(): for EVERY byte string / world, the model equals a byte-level specification written from the property statement (C12_cmdline_spec, C12_environ_spec, C12_file_errors for OS errors on the files themselves, C12_link_cleanup, C12_link_withheld, C12_exe_fallback, C12_exe_refines over all call histories incl. memoisation, one closed-form theorem per documented branch of exe(): C12_exe_native / _native_error / _denied / _withheld / _eacces_link, C12_name_rule, C12_name_when_cmdline_raises and C12_name_zombie_or_denied (a zombie or a process with an unreadable cmdline keeps the kernel's name; NoSuchProcess propagates), C12_cwd_exe_zombie, C12_zombie_identity (a zombie still has an owner and a terminal), C12_call_refines), plus kernel-layout round-trips for every argv without NUL (C12_cmdline_roundtrip, under the stated hypothesis about a single space-containing argument, with the counterexample showing the hypothesis is needed) and every environment (C12_environ_roundtrip), C12_oneshot_same_answers (inside oneshot() every call answers as outside for the world 'block-cached stat/status as first read, everything else as now'), and proved counterexamples for the two defects re-found (name() testing code points instead of bytes; open_text translating CR). Characterisations of what is returned for files a rewritten title leaves behind (C12_cmdline_setproctitle: from the memory layout of the nginx/sshd/postgres way of writing a title through the kernel's get_mm_cmdline rule to the returned list; C12_cmdline_padded_title: title + k+2 NULs = the title unsplit + k+1 empty strings; C12_cmdline_title_leftover; C12_cmdline_unterminated: a file cut by a one-page kernel is read as a space-separated title with the NULs inside the strings) and for environment blocks (C12_environ_unterminated_tail: a block cut at 4096 bytes loses exactly the cut entry; C12_environ_not_assignment_ignored: 'B', '=x'; C12_environ_any_value: newlines etc.; C12_environ_duplicates). Tied to the code by translator facts (all separator literals, the 'exactly one trailing separator is removed' shape of cmdline() with the proved counterexample C12_cmdline_strip_one_needed for rstrip, ' (deleted)', 10, 15, bytes-vs-str test in name(), newline mode of open_text, and the except clauses of name() around cmdline() and of exe() around _proc.exe() / guess_it() in source order with what their bodies do, read with Python's first-matching-clause and subclass rules: cfg_except_clauses, C12_except_clause_order_matters) feeding the proof obligation cfg_good, and by a differential run of the real methods over a fake procfs in which every call is made in one of ten call modes (plain, oneshot, nested, warm block cache filled in an earlier world, after a block, as_dict with one/many attrs, as_dict inside oneshot, twice, re-fetched from process_iter) on objects from the constructor, process_iter() and process_iter(attrs=...). Round 3 (audit): the world separates '/proc/<pid> exists' / 'stat exists' / 'stat readable' (C12_vanishing_process: directory still listed, stat gone = NoSuchProcess, psutil #2418, pinned by cfg_gone_test; C12_stat_unreadable; C12_link_withheld_unknown_liveness is a characterisation); branch-free invariants about the world only, not going through the spec's exception arms (C12_exe_result_invariant: a returned string is the clean link target, a guessable argv[0], or '' for a withheld link of a process not known to be a zombie; C12_exe_remembers_only_what_it_returned for every configuration; C12_exe_denied_never_remembered; C12_zombie_never_empty_string); C12_exe_withheld_link (the withheld branch stated on the world); the silent region of the specification delimited exactly (C12_silent_region, C12_call_refines_outside_silent); further obligations cfg_block_cached_sources (translator's list of @memoize_when_activated methods and of what oneshot_enter / Process.oneshot activate: none of C12's methods is block-cached), cfg_zombie_parser, cfg_text_decoding (open_text decodes with the file-system encoding and error handler). Seeded round 5: the errno / OSError class with which os.stat of a name outside procfs fails is a dimension of the world (FsEnt.unstatable): C12_exists_strict_answer (for any errno and class path_exists_strict answers what the specification's `named` says; only PermissionError leaves it), C12_stat_errno_never_matters (for every world, object state, call, history and oneshot block the answer is that of the world where every failing stat is plain ENOENT / EACCES: no OSError leaks, nothing else is returned or remembered), C12_unstatable_deleted_is_stale (link 'p (deleted)' whose stat fails with any errno but a refusal: cwd() = p, exe() returns and remembers p), the proved counterexample C12_exists_strict_needs_catch_all for a helper narrowed to FileNotFoundError, and the obligation cfg_exists_strict (the except clauses of path_exists_strict around os.stat read with Python's first-matching-clause and subclass rules over OSError's subclasses, and that readlink() asks that helper). HONEST LABELS: the theorems comparing model and spec on exception arms (C12_file_errors, C12_exe_denied/_withheld/_eacces_link, C12_name_when_cmdline_raises, C12_link_withheld) and on NUL-padded titles / cut files are characterisations of the code (the spec's arms there are a declarative transcription of what the front end documents, see the header of Spec/C12.lean); C12_exe_cached, C12_zombie_identity and C12_oneshot_same_answers are facts about the model whose weight is the correspondence.",
     "level_note": "Trusted: Lean kernel + {propext, Classical.choice, Quot.sound}; the translator; the correspondence harness; str<->bytes bijection under PYTHONUTF8=1; stat/status parsing (C06) enters as comm/zombie/tty_nr/real uid; the user database and the terminal map are parameters; ENOENT on the cmdline/environ file of a live process whose /proc/<pid> exists and a denied existence test, and a withheld link while stat is missing/unreadable are outside the statement (model-vs-code only; exactly the predicate `Silent` of C12_silent_region); a cached source outliving /proc/<pid> inside a block is C16's; a single argument containing a space is indistinguishable from a rewritten title in the bytes the kernel exposes (hypothesis of the round-trip).",
-    "technique": "Lean 4 case analysis and list induction (model = byte-level spec for all inputs; renderer round-trips; history refinement for the exe() memo; block-view lemma for oneshot) + inversion lemmas for the branch-free invariants + an exact characterisation of where the spec is silent + translator-fed proof obligations (cfg_good, cfg_except_clauses, cfg_block_cached_sources, cfg_gone_test, cfg_zombie_parser, cfg_text_decoding; every extractor total where a value can describe the new shape, each fact extracted on its own) + differential correspondence on a fake procfs across call modes and object sources, with exhaustive sweeps around the 15-byte name boundary, over the branches of exe(), over modes x calls x objects, over stat {missing, unreadable} x {S, Z} x file/link states x 7 calls, over names containing ')' x {S, Z} x 8 situations decided by the zombie test, and over ALL environ files on {A,=,NUL,LF} up to 7 bytes and ALL cmdline files on {a,SP,NUL} up to 8 bytes; cmdline files of the random families also come from a simulator of the kernel's get_mm_cmdline / one-page proc_pid_cmdline applied to real setproctitle memory layouts (checked against Spec.kernelCmdline on every run)",
+    "technique": "Lean 4 case analysis and list induction (model = byte-level spec for all inputs; renderer round-trips; history refinement for the exe() memo; block-view lemma for oneshot) + inversion lemmas for the branch-free invariants + an exact characterisation of where the spec is silent + translator-fed proof obligations (cfg_good, cfg_except_clauses, cfg_block_cached_sources, cfg_gone_test, cfg_zombie_parser, cfg_text_decoding, cfg_exists_strict; every extractor total where a value can describe the new shape, each fact extracted on its own) + differential correspondence on a fake procfs across call modes and object sources, with exhaustive sweeps around the 15-byte name boundary, over the branches of exe(), over modes x calls x objects, over stat {missing, unreadable} x {S, Z} x file/link states x 7 calls, over names containing ')' x {S, Z} x 8 situations decided by the zombie test, over every errno of the host (except ENOENT/EACCES/EPERM) and three REAL un-stat-able names (parent is a file, symlink loop, component longer than NAME_MAX) x the six places where exe()/cwd() stat a name outside procfs, and over ALL environ files on {A,=,NUL,LF} up to 7 bytes and ALL cmdline files on {a,SP,NUL} up to 8 bytes; cmdline files of the random families also come from a simulator of the kernel's get_mm_cmdline / one-page proc_pid_cmdline applied to real setproctitle memory layouts (checked against Spec.kernelCmdline on every run)",
     "design_ref": "DESIGN.md §5 C12",
 }
 ASSUMPTIONS = [
@@ -178,6 +179,72 @@ def _readlink_facts(tree):
                 return -v
             out.put("cut", cut)
     return out
+
+
+def _stale_test(tree):
+    """`readlink()`: the function F of `path.endswith(' (deleted)') and not F(path)` — total: another shape yields
+    a string that describes it"""
+    fn = extract.find_def(tree, "readlink")
+    hits = []
+    for n in ast.walk(fn):
+        if isinstance(n, ast.BoolOp) and isinstance(n.op, ast.And) and any(
+                isinstance(v, ast.Call) and extract.dotted(v.func) == "path.endswith" for v in n.values):
+            hits.append(n)
+    if len(hits) != 1:
+        return "%d-endswith-conjunctions" % len(hits)
+    rest = [v for v in hits[0].values
+            if not (isinstance(v, ast.Call) and extract.dotted(v.func) == "path.endswith")]
+    if len(rest) != 1:
+        return "no-existence-test" if not rest else " and ".join(extract.unparse(v) for v in rest)
+    v = rest[0]
+    if isinstance(v, ast.UnaryOp) and isinstance(v.op, ast.Not) and isinstance(v.operand, ast.Call) \
+            and len(v.operand.args) == 1 and not v.operand.keywords and extract.dotted(v.operand.args[0]) == "path" \
+            and extract.dotted(v.operand.func):
+        return extract.dotted(v.operand.func)
+    return extract.unparse(v)
+
+
+def _stat_clause_tag(h):
+    """what an `except` body of the stat helper does: "false" / "true" (`return False` / `return True`) | "raise"
+    (bare re-raise / `raise <bound name>`) | "other" (anything else)"""
+    body = [x for x in h.body if not (isinstance(x, ast.Expr) and isinstance(x.value, ast.Constant))]
+    if len(body) == 1 and isinstance(body[0], ast.Return) and isinstance(body[0].value, ast.Constant) \
+            and body[0].value.value in (True, False) and isinstance(body[0].value.value, bool):
+        return "true" if body[0].value.value else "false"
+    if len(body) == 1 and isinstance(body[0], ast.Raise) and body[0].cause is None \
+            and (body[0].exc is None or (h.name and extract.dotted(body[0].exc) == h.name)):
+        return "raise"
+    return "other"
+
+
+def _exists_strict_clauses(linux, common):
+    """the `except` clauses, in source order, of the `try` around `os.stat(path)` in the helper `readlink()` asks
+    whether the ` (deleted)` name exists (`path_exists_strict`): (sorted class names, false|true|raise|other).
+    The helper must answer True exactly when `os.stat` succeeds (`else: return True` / `return True` after it)."""
+    name = _stale_test(linux).split(".")[-1]
+    fn = None
+    for tree in (common, linux):
+        try:
+            fn = extract.find_def(tree, name)
+            break
+        except Exception:  # noqa: BLE001
+            continue
+    if fn is None:
+        raise NotRecognised("the existence test of readlink(), %r, is not a function of _common.py / _pslinux.py" % name)
+    tries = [n for n in ast.walk(fn) if isinstance(n, ast.Try)]
+    stats = [n for n in ast.walk(fn) if isinstance(n, ast.Call)
+             and extract.dotted(n.func).split(".")[-1] in ("stat", "lstat", "exists", "lexists", "access")]
+    if len(tries) != 1 or len(stats) != 1 or extract.dotted(stats[0].func) != "os.stat" \
+            or len(stats[0].args) != 1 or stats[0].keywords:
+        raise NotRecognised("%s: not one try around one os.stat(path) (%d try, %d stat-like calls)"
+                            % (name, len(tries), len(stats)))
+    tr = tries[0]
+    if tr.finalbody or len(tr.body) != 1 or not (isinstance(tr.body[0], ast.Expr) and tr.body[0].value is stats[0]):
+        raise NotRecognised("%s: the try body is not the single statement os.stat(path)" % name)
+    after = tr.orelse or (fn.body[fn.body.index(tr) + 1:] if tr in fn.body else [])
+    if [extract.unparse(x) for x in after] != ["return True"]:
+        raise NotRecognised("%s: a successful os.stat is not followed by `return True` alone" % name)
+    return [(_clause_classes(h), _stat_clause_tag(h)) for h in tr.handlers]
 
 
 def _is_bytes_expr(n, bytes_names):
@@ -598,6 +665,11 @@ def facts(snap, F):
               "Process.exe(): the except clauses around `exe = guess_it(fallback=exe)`: (classes, pass|raise|other)")
     F.try_add("guessReraiseClass", "String", lambda: extract.lean_str(get("f", _front_clauses, I).want("reraise")),
               "guess_it(): the class C of `if isinstance(fallback, C): raise fallback`")
+    # seeded round 5: os.stat of the ' (deleted)' name failing with an errno other than ENOENT / EACCES
+    F.try_add("existsStrictClauses", CL, lambda: _lean_clauses(_exists_strict_clauses(mod(L), mod(C))),
+              "path_exists_strict(): the except clauses of the try around `os.stat(path)`, in order: (classes, false|true|raise|other)")
+    F.try_add("readlinkStaleTest", "String", lambda: extract.lean_str(_stale_test(mod(L))),
+              "readlink(): the function F of `path.endswith(' (deleted)') and not F(path)`")
     # round 3: what a oneshot() block caches, the #2418 test of wrap_exceptions, _is_zombie's own stat parser
     LS = "List String"
     F.try_add("linuxMemoized", LS, lambda: strs(get("m", _memo_facts, L, I).want("linuxMemo")),
@@ -636,6 +708,70 @@ def hx(b):
     return bytes(b).hex()
 
 
+# ---- os.stat of a path outside procfs failing with an errno other than ENOENT / EACCES (seeded round 5)
+# fs kind "err:<errno>": os.stat raises OSError(errno) — as whatever subclass CPython picks for it
+
+def stat_err(kind):
+    """errno of an fs kind "err:<n>", else None"""
+    return int(kind[4:]) if isinstance(kind, str) and kind.startswith("err:") else None
+
+
+def os_class(en):
+    """name of the class CPython raises an OSError with this errno as"""
+    return type(OSError(en, "x")).__name__
+
+
+def errno_label(en):
+    """evidence label: the name for the errnos a file system really answers, one bucket for the rest"""
+    return errno.errorcode.get(en, str(en)) if en in FS_ERRNOS else "other-errno"
+
+
+def fs_entry_json(p, k):
+    en = stat_err(k)
+    if en is None:
+        return [hx(p), k]
+    return [hx(p), "unstatable", en, os_class(en)]
+
+
+def fs_entry_from_json(e):
+    if len(e) == 4:
+        return bytes.fromhex(e[0]), "err:%d" % e[2]
+    return bytes.fromhex(e[0]), e[1]
+
+
+# errnos a stat(2) of a path can really fail with besides ENOENT / EACCES / EPERM (ENOTDIR: a parent directory was
+# replaced by a file; ELOOP; ENAMETOOLONG; dead NFS / FUSE mounts; …), and every errno of the host but those three
+FS_ERRNOS = [errno.ENOTDIR, errno.ENAMETOOLONG, errno.ELOOP, errno.ESTALE, errno.EIO, errno.ENOTCONN, errno.ETIMEDOUT,
+             errno.EOVERFLOW, errno.EINVAL, errno.ENOMEM, errno.ENXIO, errno.ENODEV, errno.EINTR, errno.EHOSTDOWN]
+ALL_STAT_ERRNOS = sorted(set(errno.errorcode) - {errno.ENOENT, errno.EACCES, errno.EPERM})
+# a REAL directory whose names really fail that way (fixed place, re-created on demand, so that a replay file
+# names the same paths): app = a regular file, loop = a symlink to itself
+REAL_ROOT = b"/tmp/psv-c12-realfs"
+REAL_UNSTATABLE = [(REAL_ROOT + b"/app/bin/prog", errno.ENOTDIR), (REAL_ROOT + b"/loop/prog", errno.ELOOP),
+                   (REAL_ROOT + b"/" + b"n" * 300 + b"/prog", errno.ENAMETOOLONG)]
+
+
+def make_real_root():
+    """(re)create REAL_ROOT; the list of (path, errno) whose ` (deleted)` name really fails that way here"""
+    root = os.fsdecode(REAL_ROOT)
+    os.makedirs(os.path.join(root, "dir"), exist_ok=True)
+    for nm in ("app", os.path.join("dir", "real (deleted)")):
+        if not os.path.isfile(os.path.join(root, nm)):
+            with open(os.path.join(root, nm), "wb"):
+                pass
+    lp = os.path.join(root, "loop")
+    if not os.path.islink(lp):
+        os.symlink(lp, lp)
+    ok = []
+    for base, en in REAL_UNSTATABLE:
+        try:
+            os.stat(base + DELETED)
+        except OSError as e:
+            if e.errno == en:
+                ok.append((base, en))
+    return ok
+
+
 def world_json(w):
     def f(x):
         return {"data": hx(x[1])} if x[0] == "data" else {"err": x[1]}
@@ -645,7 +781,7 @@ def world_json(w):
     o = {"dir": w["dir"], "zombie": w["zombie"], "comm": hx(w["comm"]),
          "cmdline": f(w["cmdline"]), "environ": f(w["environ"]),
          "exe": l(w["exe"]), "cwd": l(w["cwd"]),
-         "fs": [[hx(p), k] for p, k in sorted(w["fs"].items())],
+         "fs": [fs_entry_json(p, k) for p, k in sorted(w["fs"].items())],
          "uid": w.get("uid", 0), "tty": w.get("tty", 0),
          "users": [[u, hx(n)] for u, n in sorted(w.get("users", {}).items())],
          "ttys": [[t, hx(n)] for t, n in sorted(w.get("ttys", {}).items())]}
@@ -662,7 +798,7 @@ def world_from_json(j):
         return ("target", bytes.fromhex(x["target"])) if "target" in x else ("err", x["err"])
     return {"dir": j["dir"], "zombie": j["zombie"], "comm": bytes.fromhex(j["comm"]),
             "cmdline": f(j["cmdline"]), "environ": f(j["environ"]), "exe": l(j["exe"]), "cwd": l(j["cwd"]),
-            "fs": {bytes.fromhex(p): k for p, k in j["fs"]},
+            "fs": dict(fs_entry_from_json(e) for e in j["fs"]),
             "uid": j.get("uid", 0), "tty": j.get("tty", 0),
             "users": {u: bytes.fromhex(n) for u, n in j.get("users", [])},
             "ttys": {t: bytes.fromhex(n) for t, n in j.get("ttys", [])},
@@ -820,6 +956,8 @@ class Impl:
             pass
         self.st_file = os.stat(probe)
         self.st_dir = os.stat(self.tree)
+        self.real_unstatable = make_real_root()
+        self.real_b = REAL_ROOT + b"/"
         self.active = False
         self.fs = {}
         self.file_err = {}
@@ -863,12 +1001,14 @@ class Impl:
                 if bp is not None and bp in self.tty_paths:
                     return os.stat_result((0o020620, 1, 1, 1, 0, 5, 0, 0, 0, 0), {"st_rdev": self.tty_paths[bp]})
                 if bp is not None and b"\0" not in bp and not bp.startswith(self.root_b) \
-                        and not bp.startswith(self.tree_b):
+                        and not bp.startswith(self.tree_b) and not bp.startswith(self.real_b):
                     ent = self.fs.get(bp, "absent")
                     if ent == "absent":
                         raise FileNotFoundError(errno.ENOENT, "No such file or directory", path)
                     if ent == "denied":
                         raise PermissionError(errno.EACCES, "Permission denied", path)
+                    if stat_err(ent) is not None:       # OSError picks the subclass CPython maps the errno to
+                        raise OSError(stat_err(ent), os.strerror(stat_err(ent)), path)
                     return self.st_dir if ent == "dir" else self.st_file
             return real_stat(path, *a, **kw)
 
@@ -876,7 +1016,7 @@ class Impl:
             if self.active:
                 bp = key(path)
                 if bp is not None and b"\0" not in bp and not bp.startswith(self.root_b) \
-                        and not bp.startswith(self.tree_b):
+                        and not bp.startswith(self.tree_b) and not bp.startswith(self.real_b):
                     ent = self.fs.get(bp, "absent")
                     if mode == os.X_OK:
                         return ent in ("filex", "dir")
@@ -1011,6 +1151,9 @@ class Impl:
             if isinstance(e, (KeyboardInterrupt, SystemExit)):
                 raise
             out = {"kind": "exc", "exc": type(e).__name__}
+            if isinstance(e, OSError) and not isinstance(e, (FileNotFoundError, PermissionError, ProcessLookupError)):
+                # an OSError no layer translated: what matters is that it is one, and its errno
+                out = {"kind": "exc", "exc": "OSError", "errno": e.errno}
             if isinstance(e, self.ps.Error) and getattr(e, "pid", PID) != PID:
                 out["wrong_pid"] = getattr(e, "pid", None)
             return out
@@ -1393,9 +1536,9 @@ def gen_link(rng, fs):
     if r < 0.55:
         n = rng.choice([1, 1, 1, 2])
         t = base + DELETED * n
-        fs[t] = rng.choice(["absent", "absent", "file", "filex", "dir", "denied"])
+        fs[t] = rng.choice(["absent", "absent", "file", "filex", "dir", "denied", gen_stat_err(rng)])
         if n == 2:
-            fs[base + DELETED] = rng.choice(["absent", "file"])
+            fs[base + DELETED] = rng.choice(["absent", "file", gen_stat_err(rng)])
     elif r < 0.65:
         t = base + rng.choice([b" (deleted", b"(deleted)", b" (deleted) ", b" (Deleted)"])
     if rng.random() < 0.25:
@@ -1403,9 +1546,14 @@ def gen_link(rng, fs):
     return ("target", t)
 
 
+def gen_stat_err(rng):
+    """an fs kind "os.stat fails with another errno": mostly the ones a file system really answers, else any"""
+    return "err:%d" % (rng.choice(FS_ERRNOS) if rng.random() < 0.75 else rng.choice(ALL_STAT_ERRNOS))
+
+
 def gen_fs_for(rng, path, fs):
     if path and b"\0" not in path:
-        fs[path] = rng.choice(["absent", "file", "filex", "filex", "filex", "dir", "denied"])
+        fs[path] = rng.choice(["absent", "file", "filex", "filex", "filex", "dir", "denied", gen_stat_err(rng)])
 
 
 def mb_name(rng, nbytes):
@@ -1445,7 +1593,7 @@ def gen_name_pair(rng):
 
 FAMILIES = ["argv", "title", "mixed", "empty", "environ", "link", "exe_fallback", "exe_cache", "name",
             "tree", "anything", "exe_denied", "name_err", "zombie_id", "oneshot_reuse", "proctitle", "environ_kernel",
-            "vanishing", "paren_comm"]
+            "vanishing", "paren_comm", "unstatable"]
 
 # names with a `)` (and what looks like a state letter behind it): `_is_zombie` has its OWN parser of stat (the
 # state letter is what follows the LAST `)`), apart from `_parse_stat_file`
@@ -1759,6 +1907,53 @@ def gen_case(rng, fam, impl=None):
         calls = ["cmdline", "environ", "cwd", "exe", "name", "terminal"]
         rng.shuffle(calls)
         steps = [{"call": c, "w": w} for c in calls[:rng.randrange(2, 6)]]
+    elif fam == "unstatable":
+        # os.stat of the ` (deleted)` name of exe / cwd — or of cmdline()[0], which exe() guesses from — fails with an
+        # errno other than ENOENT / EACCES: injected for any name, or REAL (a parent that is a file, a symlink loop,
+        # a component longer than NAME_MAX). Nothing of that name exists: the suffix is stale, no OSError may leak.
+        real = impl.real_unstatable if impl is not None else []
+        for _ in range(rng.randrange(1, 4)):
+            w = default_world()
+            kind = gen_stat_err(rng)
+            r = rng.random()
+            if r < 0.3 and real:
+                base, en = rng.choice(real)
+                kind = "err:%d" % en
+                n = 1
+            else:
+                base = rng.choice([b"/usr/bin/prog", b"/app/bin/prog", b"/home/u/my dir/x", b"/opt/" + E_ACUTE * 3,
+                                   b"rel/path", b"/", b"", b"/mnt/nfs/" + rbytes(rng, rng.randrange(1, 6), WORDY),
+                                   b"/a (deleted)"])
+                n = rng.choice([1, 1, 1, 2])
+            t = base + DELETED * n
+            w["fs"][t] = kind
+            if n == 2:
+                w["fs"][base + DELETED] = rng.choice(["absent", "file", gen_stat_err(rng)])
+            if rng.random() < 0.25:
+                t = t + b"\0" + rng.choice([b"", b" (deleted)", b"new", rbytes(rng, 3)])
+            other = gen_link(rng, w["fs"]) if rng.random() < 0.5 else ("err", rng.choice(["ENOENT", "EACCES"]))
+            which = rng.choice(["cwd", "exe", "both", "guess"])
+            if which == "guess":
+                # the link itself is withheld / denied; the name to guess from cannot be examined: not a file
+                a0 = rng.choice([b"/usr/bin/prog", b"/app/bin/prog", b"/opt/my app/run"] + [b for b, _ in real])
+                w["exe"] = ("err", rng.choice(["ENOENT", "ESRCH", "EACCES"]))
+                w["cwd"] = ("target", t)
+                w["cmdline"] = ("data", render_argv([a0, b"-x"]) if rng.random() < 0.8 else a0 + b" --title")
+                if not a0.startswith(REAL_ROOT):
+                    w["fs"][a0] = gen_stat_err(rng)
+                else:
+                    w["fs"][a0] = "err:%d" % dict(real)[a0]
+            else:
+                w["cwd"] = ("target", t) if which in ("cwd", "both") else other
+                w["exe"] = ("target", t) if which in ("exe", "both") else other
+                a0 = rng.choice([b"/usr/bin/prog", b"prog", b""])
+                w["cmdline"] = ("data", render_argv([a0]) if a0 else b"")
+                gen_fs_for(rng, a0, w["fs"])
+            w["zombie"] = rng.random() < 0.12
+            if rng.random() < 0.03:
+                w["dir"] = False
+            calls = rng.choice([["cwd", "exe"], ["exe", "cwd"], ["exe", "exe"], ["cwd"], ["exe"]])
+            steps.extend({"call": c, "w": w} for c in calls)
     elif fam == "oneshot_reuse":
         # the block-cached calls, several times on one object, the world changing between the steps
         for _ in range(rng.randrange(2, 5)):
@@ -1924,6 +2119,36 @@ def exhaustive_paren_cases():
     return cases
 
 
+def exhaustive_staterr_cases(real):
+    """every errno of the host except ENOENT / EACCES / EPERM x every place where C12's calls stat a name outside
+    procfs: the ` (deleted)` name of the cwd link, of the exe link (also with NUL garbage behind it, and for a
+    zombie), and cmdline()[0] when exe() has to guess; plus the REAL un-stat-able names of this run x the same
+    places"""
+    cases = []
+    base = b"/srv/app/bin/prog"
+    names = [("err:%d" % en, base, "inj") for en in ALL_STAT_ERRNOS] + [("err:%d" % en, b, "real") for b, en in real]
+    for kind, b, how in names:
+        t = b + DELETED
+        label = "%s-%s" % (how, errno.errorcode.get(stat_err(kind), kind))
+        sites = {
+            "cwd": ("cwd", dict(cwd=("target", t))),
+            "exe": ("exe", dict(exe=("target", t))),
+            "exe-nul": ("exe", dict(exe=("target", t + b"\0 (deleted)"))),
+            "cwd-zombie": ("cwd", dict(cwd=("target", t), zombie=True, cmdline=("data", b""))),
+            "guess": ("exe", dict(exe=("err", "ENOENT"), cmdline=("data", render_argv([b, b"-x"])))),
+            "guess-denied": ("exe", dict(exe=("err", "EACCES"), cmdline=("data", render_argv([b, b"-x"])))),
+        }
+        for sn, (call, kw) in sites.items():
+            w = default_world()
+            w.update(kw)
+            w["fs"] = {(b if sn.startswith("guess") else t): kind}
+            steps = [{"call": call, "w": w}]
+            if call == "exe":
+                steps.append({"call": "exe", "w": w})
+            cases.append({"family": "exh-staterr:%s/%s" % (label, sn), "steps": steps})
+    return cases
+
+
 def exhaustive_name_cases():
     """all (comm length 13–16) × content kind × relation × argv0 form × cmdline state combinations"""
     cases = []
@@ -2081,6 +2306,22 @@ def corpus_cases():
     out.append(one("cwd", cwd=("target", b"/tmp/x (deleted)"), fs={b"/tmp/x (deleted)": "absent"}))
     out.append(one("cwd", cwd=("target", b"/tmp/x (deleted)"), fs={b"/tmp/x (deleted)": "file"}))
     out.append(one("exe", exe=("target", b"/usr/bin/p\0 (deleted)")))
+    # the ` (deleted)` name cannot be stat'ed for another reason than ENOENT: its parent directory became a file
+    # (ENOTDIR), a component is a symlink loop (ELOOP) or longer than NAME_MAX (ENAMETOOLONG), a dead mount (ESTALE,
+    # EIO): nothing of that name exists, the suffix is stale
+    for en in (errno.ENOTDIR, errno.ELOOP, errno.ENAMETOOLONG, errno.ESTALE, errno.EIO):
+        t = b"/app/bin/prog (deleted)"
+        out.append(one("cwd", cwd=("target", t), fs={t: "err:%d" % en}))
+        out.append(one("exe", exe=("target", t), fs={t: "err:%d" % en}))
+    for base, en in make_real_root():                       # the same, answered by the REAL file system
+        t = base + DELETED
+        wr = default_world()
+        wr.update(cwd=("target", t), exe=("target", t + b"\0x"), fs={t: "err:%d" % en})
+        out.append({"family": "corpus", "steps": [{"call": "cwd", "w": wr}, {"call": "exe", "w": wr}]})
+    wr = default_world()                                    # control: a real file really named "... (deleted)"
+    wr.update(cwd=("target", REAL_ROOT + b"/dir/real (deleted)"), fs={REAL_ROOT + b"/dir/real (deleted)": "file",
+                                                                       REAL_ROOT + b"/dir": "dir"})
+    out.append({"family": "corpus", "steps": [{"call": "cwd", "w": wr}]})
     w1 = default_world()
     w1.update(exe=("err", "ENOENT"), cmdline=("data", b"/usr/bin/p\0"), fs={b"/usr/bin/p": "filex"})
     w2 = default_world()
@@ -2206,9 +2447,26 @@ def features(case):
                     f.add("link:nul-garbage")
                 p = t.split(b"\0")[0]
                 if p.endswith(DELETED):
-                    f.add("link:deleted-" + w["fs"].get(p, "absent"))
+                    k = w["fs"].get(p, "absent")
+                    if stat_err(k) is not None:
+                        f.add("link:deleted-stat-fails")
+                        f.add("stat-fails:%s" % errno_label(stat_err(k)))
+                        f.add("stat-fails-class:%s" % os_class(stat_err(k)))
+                        f.add("stat-fails-at:%s-link" % c)
+                        if p.startswith(REAL_ROOT):
+                            f.add("stat-fails(real fs):%s" % errno.errorcode.get(stat_err(k), k))
+                        if w["zombie"]:
+                            f.add("stat-fails:zombie")
+                    else:
+                        f.add("link:deleted-" + k)
                 else:
                     f.add("link:plain")
+        if c == "exe" and w["cmdline"][0] == "data" and w["exe"][0] == "err":
+            a0 = w["cmdline"][1].split(b"\0")[0]
+            for cand in (a0, a0.split(b" ")[0]):
+                if stat_err(w["fs"].get(cand)) is not None:
+                    f.add("stat-fails-at:guess-argv0")
+                    f.add("stat-fails:%s" % errno_label(stat_err(w["fs"][cand])))
         if c == "exe":
             f.add("exe")
         if c == "username":
@@ -2272,9 +2530,10 @@ def correspond(ctx, res):
         res.rule = ("cases = one Process object (from the constructor, from process_iter(), or from "
                     "process_iter(attrs=…)) + a list of (world, call, MODE) steps — mode = plain / oneshot / nested / "
                     "oneshot with a warm cache filled in an earlier world / after a block / as_dict (one or many attrs, "
-                    "also inside oneshot) / twice / re-fetched from process_iter(); 17 clause-directed families (among "
+                    "also inside oneshot) / twice / re-fetched from process_iter(); 20 clause-directed families (among "
                     "them cmdline files produced by a kernel simulator from real setproctitle layouts and page-cut "
-                    "argument vectors, and kernel-laid-out environments cut at 4096 bytes) "
+                    "argument vectors, kernel-laid-out environments cut at 4096 bytes, and ` (deleted)` names / guessed paths whose "
+                    "os.stat fails with an errno other than ENOENT / EACCES, injected or answered by a real directory) "
                     "(PRNG from VERIF_SEED), a corpus of clause witnesses, and exhaustive sweeps of the name() rule "
                     "around the 15-byte boundary, of the branches of exe(), and of modes x calls x objects; "
                     "non-trivial = at least one step whose outcome is not the default world's; distinct = distinct step lists")
@@ -2292,11 +2551,19 @@ def correspond(ctx, res):
         exh_mode = exhaustive_mode_cases()
         exh_stat = exhaustive_stat_cases()
         exh_paren = exhaustive_paren_cases()
+        exh_staterr = exhaustive_staterr_cases(impl.real_unstatable)
+        for k, c in enumerate(exh_staterr):  # errno-independent by theorem: spread objects and modes over the sweep
+            c["obj"] = OBJS[k % len(OBJS)]
+            for st in c["steps"]:
+                set_mode(ctx.rng, c, st, MODES[(k // len(OBJS)) % len(MODES)])
+        res.count("stat_errnos", len(ALL_STAT_ERRNOS))
+        res.count("stat_real_unstatable_names", len(impl.real_unstatable))
         cases.extend(exh)
         cases.extend(exh_exe)
         cases.extend(exh_mode)
         cases.extend(exh_stat)
         cases.extend(exh_paren)
+        cases.extend(exh_staterr)
         total_lines = 0
         CH = 3000
         silent = 0
@@ -2342,8 +2609,14 @@ def correspond(ctx, res):
                           "in the EARLIER world: nothing of them may survive in the block); stat itself: all %d "
                           "combinations of /proc/<pid>/stat {missing, unreadable} x {S, Z} x own file/link {data, empty, "
                           "ENOENT, ESRCH, EACCES} x 7 calls; _is_zombie's parser: all %d combinations of %d names "
-                          "containing ')' x {S, Z} x 8 situations decided by the zombie test; the random families are samples"
-                          % (len(exh), len(exh_exe), len(exh_mode), len(exh_stat), len(exh_paren), len(PAREN_COMMS)))
+                          "containing ')' x {S, Z} x 8 situations decided by the zombie test; failing os.stat: all %d "
+                          "combinations of every errno of the host except ENOENT/EACCES/EPERM (%d) and the %d real "
+                          "un-stat-able names of the run (parent is a file, symlink loop, component > NAME_MAX) x "
+                          "{' (deleted)' name of cwd, of exe, of exe + NUL garbage, of a zombie's cwd, cmdline()[0] of the "
+                          "guess with the link withheld / denied} (modes and object sources spread over them); the "
+                          "random families are samples"
+                          % (len(exh), len(exh_exe), len(exh_mode), len(exh_stat), len(exh_paren), len(PAREN_COMMS),
+                             len(exh_staterr), len(ALL_STAT_ERRNOS), len(impl.real_unstatable)))
         res.extra["driver_lines"] = total_lines
         res.extra["random_cases"] = n_rand
     finally:
